@@ -339,3 +339,45 @@ def names_interleaved(taken: int, what: int) -> None:
         got += list(g)
     assert got == full == ['%price%', 'qty', 'tax', 'rate', '%ship ping%'], "a call on another parser disturbed a partly consumed list_names()"
     hlib.done()
+
+
+# exact listings for texts with identifiers that START or END like keywords, keywords next to names, and %..% names
+EXACT = [
+    ("not index and inx", ['index', 'inx']), ("a not in b", ['a', 'b']), ("not int(x) or order", ['int', 'x', 'order']),
+    ("iffy = 1 if elsewhere else android", ['iffy', 'elsewhere', 'android']), ("nota = notb not in inc", ['nota', 'notb', 'inc']),
+    ("not  inside", ['inside']), ("not\tin_ + Truely + Nonesuch + delta", ['in_', 'Truely', 'Nonesuch', 'delta']),
+    ("x.format(y) | andor(z) # notin here", ['x', 'format', 'y', 'andor', 'z']), ("%not in% + %a if b%", ['%not in%', '%a if b%']),
+    ("del delx[0]\nfor_ = 1", ['delx', 'for_']), ("f = (inn, orr) => inn or orr", ['f', 'inn', 'orr', 'inn', 'orr']),
+    ("a not in (b)\nnot (c) in d", ['a', 'b', 'c', 'd']), ("1 if not_ else 2", ['not_']),
+]
+BAD_FIRST = ["price ? qty", "a $", "f(1 ? 2", "'unterminated ? x", "x = (1,\n? y", "1 +", "for", ")", "a ` b `"]
+
+
+def names_exact(ti: int, first: int, how: int) -> None:
+    """
+    pre: 0 <= ti < 13 and -1 <= first < 9 and 0 <= how <= 2
+    post: True
+    """
+    # list_names(text) is exactly the identifiers of the text, also right after a failed call on the same parser
+    # (lexical error, syntax error, both at once, abandoned listing)
+    hlib.enter(locals())
+    ti, first, how = hlib.concrete(ti, 0, 12), hlib.concrete(first, -1, 8), hlib.concrete(how, 0, 2)
+    text, want = EXACT[ti]
+    with hlib.native():
+        p = OTHER
+        if first >= 0:
+            try:
+                if how == 0:
+                    p.eval(BAD_FIRST[first], {})
+                elif how == 1:
+                    p.parse(BAD_FIRST[first])
+                else:
+                    next(p.list_names(BAD_FIRST[first]), None)
+            except Exception:
+                pass
+        try:
+            got = ('ok', list(p.list_names(text)))
+        except Exception as e:
+            got = ('err', type(e).__name__, str(e))
+    assert got == ('ok', want), "list_names(%r)%s = %r, expected %r" % (text, (" after a failed call on %r" % BAD_FIRST[first]) if first >= 0 else "", got, want)
+    hlib.done()
